@@ -90,8 +90,8 @@ def dev_selftests_join(ck, handle):
     ck.note("self-test: each of %d deviation flags makes TLC report a violation (%s)" % (len(res), ", ".join(j[0][0] for j in res)))
 
 
-def dev_selftests(ck, jobs, parallel=3):
-    dev_selftests_join(ck, dev_selftests_start(ck, jobs, parallel))
+def dev_selftests(ck, jobs, parallel=3, env=None):
+    dev_selftests_join(ck, dev_selftests_start(ck, jobs, parallel, env))
 
 
 def run_drv(binary, cases_path, out_path, batch=400, parallel=8, extra=(), timeout=1500):
@@ -182,15 +182,16 @@ def judge_lines(ck, spec, events, name="selftest", cfg=None):
 
 def selftest_oracle(ck, spec, good, corrupt, cfg=None):
     """`good` events must all be accepted silently, every `corrupt` event must be flagged BAD (oracle self-test,
-    independent of the code under test)"""
-    bad, obs = judge_lines(ck, spec, good, "good", cfg)
-    if bad or obs:
-        raise vf.Infra("self-test: %s flags correct synthesised observations: BAD=%s OBS=%s" % (spec, sorted(bad), obs))
-    bad, obs = judge_lines(ck, spec, corrupt, "corrupt", cfg)
-    if bad != set(range(1, len(corrupt) + 1)):
-        miss = sorted(set(range(1, len(corrupt) + 1)) - bad)
+    independent of the code under test); one TLC run over good + corrupt"""
+    bad, obs = judge_lines(ck, spec, list(good) + list(corrupt), "selftest", cfg)
+    g = len(good)
+    if any(x <= g for x in bad) or any(x <= g for _, x in obs):
+        raise vf.Infra("self-test: %s flags correct synthesised observations: BAD=%s OBS=%s" % (spec, sorted(x for x in bad if x <= g), obs))
+    want = set(range(g + 1, g + len(corrupt) + 1))
+    if bad != want:
+        miss = sorted(want - bad)
         raise vf.Infra("self-test: %s accepted corrupted observations (lines %s): %s" % (
-            spec, miss, "; ".join(json.dumps(corrupt[i - 1])[:200] for i in miss[:3])))
+            spec, miss, "; ".join(json.dumps(corrupt[i - g - 1])[:200] for i in miss[:3])))
     ck.note("self-test: %s accepts %d synthesised correct events, rejects %d corrupted ones" % (spec, len(good), len(corrupt)))
 
 
